@@ -314,7 +314,7 @@ def run(ctx):
     quick = ctx.tier == "quick"
     ctx.build_go()
     try:
-        ctx.extract(["readertmpl"])
+        ctx.extract(["readertmpl", "lexertmpl"])
         ctx.prove("Emerge.Props.C19")
         if not quick:
             ctx.leanchecker("Emerge.Props.C19")
